@@ -1,7 +1,7 @@
 #!/bin/bash
 # usage: tools_mut.sh <PROP> <sed-expr> <file>   — apply a one-line edit in scratch worktree /tmp/w1, run the check, revert
 set -u
-W=/tmp/w1
+W=${W:-/tmp/w2}
 P=$1; shift
 EXPR=$1; shift
 F=$1; shift
